@@ -38,8 +38,13 @@ let cmd_cursor (param : string) (arg : string) (impl : string) : string * string
   let bufsize = nat_of_int (int_of_string param) in
   let evs = parse_events arg in
   let (pre, rest) = split_at_stop evs in
-  (* a run that an undecodable datagram ended did not stop: nothing is resumed *)
-  let stopped_normally ys = (Stdlib.List.length ys = Stdlib.List.length (spec_run bufsize pre)) in
+  (* a run that an undecodable datagram ended (next() returned None with the flag still set) never reached
+     the stop request: nothing is resumed.  It reaches the request iff every datagram before it, cut to the
+     buffer, decodes to its end. *)
+  let reaches_stop = Stdlib.List.for_all (fun e -> match e with
+      | Dgram (_, d) -> let d' = firstn bufsize d in snd (decode_until (length d') d')
+      | _ -> true) pre in
+  let stopped_normally _ys = reaches_stop in
   let mr = match run_script bufsize pre with
     | Panic -> "PANIC" | Err -> "OUT-OF-FUEL"
     | Ok ys ->
@@ -47,8 +52,8 @@ let cmd_cursor (param : string) (arg : string) (impl : string) : string * string
        | Some r when stopped_normally ys -> (match run_script bufsize r with Ok ys2 -> resumed_str ys ys2 | Panic -> "PANIC" | Err -> "OUT-OF-FUEL")
        | _ -> resumed_str ys []) in
   let spec = match rest with
-    | Some r -> resumed_str (spec_run bufsize pre) (spec_run bufsize r)
-    | None -> resumed_str (spec_run bufsize pre) [] in
+    | Some r when reaches_stop -> resumed_str (spec_run bufsize pre) (spec_run bufsize r)
+    | _ -> resumed_str (spec_run bufsize pre) [] in
   let verdict =
     if impl = "" then "-"
     else if impl = spec then "ok"
